@@ -11,7 +11,7 @@ use rand_chacha::ChaCha20Rng;
 use rand_core::RngCore;
 use serde_json::json;
 
-pub const RULE: &str = "for every data type with byte conversions (26) x 2 groups x {bytes, serde_bare, serde_json}: take honest encodings (one per variant), locate every decoder-validated point inside the encoding, and replace it by (a) on-curve points OUTSIDE the prime-order subgroup (found by scanning x with the reference's unchecked decompression; 4 quick / 8 thorough per group, both y signs), (b) x-coordinates with no curve point, (c) flag-bit variants (compression bit cleared, infinity bit with non-zero body, sort bit on infinity, x >= p, all-ones), then decode. Plus (d) every truncation length of every encoding (a strict prefix must be rejected), +1/+32 extensions (must be rejected by the exact-length types: keys, proofs of possession, commitments, scalars), all-zero scalars through every byte importer, and seeded random byte strings per decoder (2k quick / 40k thorough per suite). ORACLE (independent validator): whenever a decoder returns Ok, every point re-extracted from the returned value must classify as a subgroup point under the reference's checked decompression - lenient-but-safe decoding is NOT an alarm. Share containers hold unparsed payloads: the same bad payloads are planted in SignatureShare / PublicKeyShare / SignDecryptionShare / ElGamalDecryptionShare and every combining / verifying entry point must return an error. Distinct by (suite,type,codec,mutated bytes); non-trivial = the mutated input reached a decoder's point/scalar validation (counted separately: inputs the independent validator itself classifies, and how many decoders accepted).";
+pub const RULE: &str = "for every data type with byte conversions (26) x 2 groups x {bytes, serde_bare, serde_json}: take honest encodings (one per variant), locate every decoder-validated point inside the encoding, and replace it by (a) on-curve points OUTSIDE the prime-order subgroup (found by scanning x with the reference's unchecked decompression; 4 quick / 8 thorough per group, both y signs), (b) x-coordinates with no curve point, (c) flag-bit variants (compression bit cleared, infinity bit with non-zero body, sort bit on infinity, x >= p, all-ones), then decode. Plus (d) every truncation length of every encoding (a strict prefix must be rejected), +1/+32 extensions (must be rejected by the exact-length types: keys, proofs of possession, commitments, scalars), all-zero scalars through every byte importer, the encodings 0, 1, r-1, r, r+1, 2r, 2r+1, 2^255, 2^256-1 through all 15 scalar importers (whatever is accepted must be non-zero), and seeded random byte strings per decoder (2k quick / 40k thorough per suite). ORACLE (independent validator): whenever a decoder returns Ok, every point re-extracted from the returned value must classify as a subgroup point under the reference's checked decompression - lenient-but-safe decoding is NOT an alarm. Share containers hold unparsed payloads: the same bad payloads are planted in SignatureShare / PublicKeyShare / SignDecryptionShare / ElGamalDecryptionShare and every combining / verifying entry point must return an error. Distinct by (suite,type,codec,mutated bytes); non-trivial = the mutated input reached a decoder's point/scalar validation (counted separately: inputs the independent validator itself classifies, and how many decoders accepted).";
 
 pub fn run(ctx: &mut Ctx) {
     for_both!(run_suite, ctx);
@@ -251,6 +251,10 @@ fn run_suite<C: Suite>(ctx: &mut Ctx) {
     if ctx.mine(base + 1000) {
         shares::<C>(ctx, &env, &bad_sig, &bad_pk);
     }
+    ctx.require(&format!("{}/scalar-importers/never-zero", C::NAME));
+    if ctx.mine(base + 1001) {
+        scalar_importers::<C>(ctx);
+    }
     for c in ["Signature::from_shares", "PublicKey::from_shares", "SignCryptDecryptionKey::from_shares", "ElGamalDecryptionKey::from_shares", "PublicKeyShare::verify/sig-payload", "PublicKeyShare::verify/pk-payload", "SignDecryptionShare::verify/share-payload", "SignDecryptionShare::verify/pk-payload"] {
         ctx.require(&format!("{}/shares/{c}", C::NAME));
     }
@@ -389,4 +393,43 @@ fn json_length_variants(doc: &serde_json::Value) -> Vec<(&'static str, Vec<u8>)>
         }
     }
     out
+}
+
+/// Every scalar byte importer on the special encodings around the group order: whatever is
+/// ACCEPTED must be a non-zero scalar (r and 2r are non-canonical encodings of zero).
+fn scalar_importers<C: Suite>(ctx: &mut Ctx) {
+    let n = C::NAME;
+    for (name, be) in gen::special_scalar_encodings() {
+        let mut le = be;
+        le.reverse();
+        let mut tagged_be = vec![u8::from(C::CURVE)];
+        tagged_be.extend_from_slice(&be);
+        let mut tagged_le = vec![u8::from(C::CURVE)];
+        tagged_le.extend_from_slice(&le);
+        let zero = [0u8; 32];
+        let enum_be = |e: Option<SecretKeyEnum>| e.map(|e| match e { SecretKeyEnum::G1(k) => k.to_be_bytes(), SecretKeyEnum::G2(k) => k.to_be_bytes() });
+        let results: Vec<(&str, Option<[u8; 32]>)> = vec![
+            ("SecretKey::from_be_bytes", ct_some(SecretKey::<C>::from_be_bytes(&be)).map(|k| k.to_be_bytes())),
+            ("SecretKey::from_le_bytes", ct_some(SecretKey::<C>::from_le_bytes(&le)).map(|k| k.to_be_bytes())),
+            ("SecretKey::try_from(&[u8])", SecretKey::<C>::try_from(&be[..]).ok().map(|k| k.to_be_bytes())),
+            ("SecretKey::try_from(Vec)", SecretKey::<C>::try_from(be.to_vec()).ok().map(|k| k.to_be_bytes())),
+            ("SecretKey::try_from(Box)", SecretKey::<C>::try_from(be.to_vec().into_boxed_slice()).ok().map(|k| k.to_be_bytes())),
+            ("ProofCommitmentSecret::from_be_bytes", ct_some(ProofCommitmentSecret::<C>::from_be_bytes(&be)).map(|k| k.to_be_bytes())),
+            ("ProofCommitmentSecret::from_le_bytes", ct_some(ProofCommitmentSecret::<C>::from_le_bytes(&le)).map(|k| k.to_be_bytes())),
+            ("ProofCommitmentSecret::try_from(&[u8])", ProofCommitmentSecret::<C>::try_from(&be[..]).ok().map(|k| k.to_be_bytes())),
+            ("ProofCommitmentChallenge::from_be_bytes", ct_some(ProofCommitmentChallenge::<C>::from_be_bytes(&be)).map(|k| k.to_be_bytes())),
+            ("ProofCommitmentChallenge::from_le_bytes", ct_some(ProofCommitmentChallenge::<C>::from_le_bytes(&le)).map(|k| k.to_be_bytes())),
+            ("ProofCommitmentChallenge::try_from(&[u8])", ProofCommitmentChallenge::<C>::try_from(&be[..]).ok().map(|k| k.to_be_bytes())),
+            ("ProofCommitmentChallenge::try_from(Vec)", ProofCommitmentChallenge::<C>::try_from(be.to_vec()).ok().map(|k| k.to_be_bytes())),
+            ("SecretKeyEnum::try_from(&[u8])", enum_be(SecretKeyEnum::try_from(tagged_be.as_slice()).ok())),
+            ("SecretKeyEnum::from_be_bytes", enum_be(ct_some(SecretKeyEnum::from_be_bytes(&tagged_be)))),
+            ("SecretKeyEnum::from_le_bytes", enum_be(ct_some(SecretKeyEnum::from_le_bytes(&tagged_le)))),
+        ];
+        for (imp, got) in results {
+            ctx.expect(got != Some(zero), &format!("C16/zero-scalar-imported/{n}/{imp}"), || {
+                json!({"what":"a scalar byte importer returned the ZERO scalar","importer":imp,"input_class":name,"input_be":hex::encode(be)})
+            });
+            ctx.hit(&format!("{n}/scalar-importers/never-zero"), &[imp.as_bytes(), &be]);
+        }
+    }
 }
